@@ -822,10 +822,13 @@ func lexIdent(l *lexer) stateFn {
 	var itemType = itemIdent
 	switch l.next() {
 	case '.':
-		if isDigit(l.next()) {
+		if r := l.next(); isDigit(r) {
 			itemType = itemDotIndex
-		} else {
+		} else if r == '_' || unicode.IsLetter(r) {
 			itemType = itemDotIdent
+		} else {
+			// a name begins with a letter or an underscore: "$a." or ".٣" is not one.
+			return l.errorfAt(l.start, "unexpected beginning to name after '.': %#U", r)
 		}
 		l.backup()
 	case '$':
@@ -843,10 +846,12 @@ func lexIdent(l *lexer) stateFn {
 		if dot != '.' {
 			return l.errorf("unexpected beginning to ident: ?%v", dot)
 		}
-		if isDigit(l.next()) {
+		if r := l.next(); isDigit(r) {
 			itemType = itemQuestionDotIndex
-		} else {
+		} else if r == '_' || unicode.IsLetter(r) {
 			itemType = itemQuestionDotIdent
+		} else {
+			return l.errorfAt(l.start, "unexpected beginning to name after '?.': %#U", r)
 		}
 		l.backup()
 	}
